@@ -88,9 +88,10 @@ CLAIMED = {
              "exactly the stored pairs (items_exact), all of them byte-string keys, in strictly ascending byte order hence each once "
              "(items_sorted with plt_nibs: byte order = nibble order); nodes() = pre-order: every pair is the node traverse(prefix) "
              "returns (nodes_are_traverse), prefixes strictly increase (nodes_preorder: each once, parents first, left to right), "
-             "every non-blank node is yielded (nodes_complete). That the fog+cache loop of nodes() produces this pre-order is tied by "
-             "the correspondence (exact node sequence), its proof is listed as future work. Tie: keys/items/values/nodes "
-             "sequences and next(k) for stored, neighbouring and foreign keys.",
+             "every non-blank node is yielded (nodes_complete); and the loop of nodes() AS WRITTEN - fog with nearest_right(()), "
+             "frontier cache with traverse on a miss and traverse_from(parent, segment) on a hit, explore, cache maintenance - yields "
+             "exactly this pre-order (nodes_loop_is_preorder). Tie: keys/items/values/nodes sequences (also against the model's "
+             "transcription of the loop) and next(k) for stored, neighbouring and foreign keys.",
         technique="Lean 4 proof (order theory on nibble paths, induction on the tree model) + correspondence check",
         design_ref="6/C10"),
     "C04": dict(
